@@ -3,10 +3,7 @@
 // ASSUMPTION (property C15, not decided here): that comparison is an equivalence relation and the hash respects it. The
 // stand-in therefore identifies a key with its equivalence class `class()`; which byte string represents the class is
 // deliberately not observable in specifications (`into_bytes` only promises some text of the same class).
-#[verifier::external_type_specification]
-#[verifier::external_body]
-pub struct ExUtf8Error(std::str::Utf8Error);
-pub uninterp spec fn is_utf8(s: Seq<u8>) -> bool;
+// (is_utf8 / Utf8Error: shim utf8)
 // the equivalence class (Recon value) denoted by a UTF-8 text
 pub uninterp spec fn recon_class(s: Seq<u8>) -> int;
 #[verifier::external_body]
